@@ -37,10 +37,19 @@ fn session(kind: u64) -> SessionData {
         1 => {
             s.insert("aws:username", SessionValue::String("user".into()));
         }
-        _ => {
+        2 => {
             s.insert("k:null", SessionValue::Null);
             s.insert("k:bool", SessionValue::Bool(true));
             s.insert("k:int", SessionValue::Integer(-7));
+        }
+        _ => {
+            // the condition keys IAM itself defines (also those it defines only for temporary credentials, for MFA, for
+            // federation): whatever the provider says about the caller comes back as it was said, token or no token
+            for k in crate::checks::wellknown::session_keys() {
+                s.insert(k, SessionValue::String(format!("value of {}", k)));
+            }
+            s.insert("aws:MultiFactorAuthPresent", SessionValue::Bool(true));
+            s.insert("aws:MultiFactorAuthAge", SessionValue::Integer(300));
         }
     }
     s
@@ -155,7 +164,7 @@ fn compare_parts(
     }
 }
 
-const N_RESP: u64 = 12;
+const N_RESP: u64 = 16;
 /// body lengths around the sizes at which buffering / previewing code changes behaviour
 const BODY_SIZES: [usize; 7] = [11, 255, 256, 257, 1000, 4096, 65537];
 const VERSIONS: [http::Version; 5] = [http::Version::HTTP_09, http::Version::HTTP_10, http::Version::HTTP_11, http::Version::HTTP_2, http::Version::HTTP_3];
@@ -489,7 +498,7 @@ pub fn run(ctx: &Ctx) -> Report {
     Report {
         stats: st,
         rule: format!(
-            "accepted (reference-signed) requests: 11 methods (incl. extension methods) x 5 HTTP versions x 4 header multisets (repeated names, non-UTF-8 and empty values, mixed-case names), every second request also carrying a second Authorization and X-Amz-Security-Token header after the ones that count, half of them a session token x body types (), Vec<u8>, Bytes x {} body lengths (11 .. 65537 bytes, around 256) x 4 request-target / host forms (origin, origin with escapes / '+' / '&&', absolute-form, absolute-form without a Host header and ':authority' signed) and three targets without a path (authority-form host:port, absolute-form with no path, asterisk-form; these x methods x versions x body types x options only) x carrier x 4 principals x 3 session data x {{default, S3, fold}}, the whole product once per logger configuration {:?} (no logger output, or a logger that formats every record at that maximum level{}); returned method, version, URI, header names/values/multiplicity/per-name order, body bytes and principal/session data compared with what was submitted / supplied; plus {} folded form requests (URL x body parameter lists x 6 paths — plain, escaped, and three with empty / dot segments, one beginning with '//' — x S3 x carrier, the plain path with the form in UTF-8, UTF-16LE and UTF-16BE; the returned path must have the normal form of the submitted one under the server's mode; each with an accurate Content-Length, Content-MD5, Content-Encoding and X-Amz-Content-Sha256, signed for every second one) per logger configuration: body empty and returned query multiset = URL ⊎ body. states = distinct (principal, session size) returned; Extensions marker recorded, not judged",
+            "accepted (reference-signed) requests: 11 methods (incl. extension methods) x 5 HTTP versions x 4 header multisets (repeated names, non-UTF-8 and empty values, mixed-case names), every second request also carrying a second Authorization and X-Amz-Security-Token header after the ones that count, half of them a session token x body types (), Vec<u8>, Bytes x {} body lengths (11 .. 65537 bytes, around 256) x 4 request-target / host forms (origin, origin with escapes / '+' / '&&', absolute-form, absolute-form without a Host header and ':authority' signed) and three targets without a path (authority-form host:port, absolute-form with no path, asterisk-form; these x methods x versions x body types x options only) x carrier x 4 principals x 4 session data (empty, one key, null / bool / integer values, and the 24 condition keys IAM itself defines) x {{default, S3, fold}}, the whole product once per logger configuration {:?} (no logger output, or a logger that formats every record at that maximum level{}); returned method, version, URI, header names/values/multiplicity/per-name order, body bytes and principal/session data compared with what was submitted / supplied; plus {} folded form requests (URL x body parameter lists x 6 paths — plain, escaped, and three with empty / dot segments, one beginning with '//' — x S3 x carrier, the plain path with the form in UTF-8, UTF-16LE and UTF-16BE; the returned path must have the normal form of the submitted one under the server's mode; each with an accurate Content-Length, Content-MD5, Content-Encoding and X-Amz-Content-Sha256, signed for every second one) per logger configuration: body empty and returned query multiset = URL ⊎ body. states = distinct (principal, session size) returned; Extensions marker recorded, not judged",
             BODY_SIZES.len(), levels, if thorough { "" } else { "; quick tier: each level covers a different third of the (method, version, header set) combinations, all other dimensions in full" }, n_f
         ),
         bounds: json!({"combinations_per_level": total, "levels": levels.len(), "folded": n_f}),
